@@ -183,6 +183,17 @@ pub fn macro_material(rng: &mut Rng, body_max: usize) -> Vec<u8> {
     let head: &[u8] = if rng.chance(1, 2) { MACRO05 } else { MACRO06 };
     let blen = if rng.chance(1, 3) { rng.below(5) } else { rng.below(body_max + 1) };
     let body = if rng.chance(1, 2) { runs(rng, blen, &CLASSES, 4) } else { runs(rng, blen, &[Class::Digit, Class::Upper, Class::Lower, Class::Space], 4) };
+    let body = if rng.chance(1, 8) {
+        // the body itself is (or ends like) an envelope
+        let inner: &[u8] = if rng.chance(1, 2) { MACRO05 } else { MACRO06 };
+        match rng.below(3) {
+            0 => [inner, &body[..], TRAIL].concat(),
+            1 => [&body[..], TRAIL].concat(),
+            _ => [inner, &body[..]].concat(),
+        }
+    } else {
+        body
+    };
     let mut v = Vec::new();
     match rng.below(12) {
         0 => v.extend_from_slice(head),                       // bare header
